@@ -348,6 +348,7 @@ def shards(tier, seed):
     out = [{'what': 'segment', 'shape': n, 'rot': r} for n in list(AB.LINES) + list(AB.QUADS) + list(AB.CUBICS) for r in rots]
     out += [{'what': 'path', 'word': list(w)} for w in PATHS]
     out.append({'what': 'special'})
+    out += AB.provenance_shards(out, tier, lambda d: d['what'] == 'segment' and d['rot'] in (0, 37) and 'scale' not in d)
     from mc import longpaths as LP
     out += [{'what': 'long', 'n': n, 'kinds': k} for n in (LP.SIZES_QUICK if tier == 'quick' else LP.SIZES_THOROUGH)
             for k in (('L', 'LQC') if tier == 'quick' else ('L', 'Q', 'C', 'LQC', 'CL'))]
